@@ -571,38 +571,37 @@ def schedule_part(tier, seed):
     vio, summary = [], {}
     nexec = npts = 0
     if tier == "quick":
-        plan = [("layer4", "thread", 1, 1), ("layer6", "thread", 1, 1), ("layer4", "process", 1, 2), ("step", "thread", 1, 4)]
+        plan = [("layer4", "thread", 1), ("layer6", "thread", 0), ("layer4", "process", 0), ("step", "thread", 0)]
     else:
-        plan = [("layer4", "thread", 2, 1), ("layer6", "thread", 1, 1), ("layer4", "process", 1, 1), ("layer6", "process", 1, 1),
-                ("step", "thread", 1, 1), ("step", "process", 1, 1)]
-    for driver, flavour, bound, stride in plan:
-        root = _exec(driver, flavour, [])
-        jobs = []
-        for i, p in enumerate(root.points):
-            cost = root.preemptions_before(i) + (1 if p["running_enabled"] else 0)
-            if cost > bound:
-                continue
-            for alt in range(1, p["n"]):
-                jobs.append((driver, flavour, bound, list(root.choices[:i]) + [alt]))
-        jobs = jobs[::stride]
+        plan = [("layer4", "thread", 2), ("layer6", "thread", 1), ("layer4", "process", 1), ("layer6", "process", 0),
+                ("step", "thread", 1), ("step", "process", 0)]
+    for driver, flavour, bound in plan:
+        orders = set()
+
+        def mk(p):
+            x = _exec(driver, flavour, p)
+            orders.add(tuple(x.completion))
+            return x
+        found, stats, prefixes = S.split_frontier(mk, bound, sched_check, target=400)
+        jobs = [(driver, flavour, bound, p) for p in prefixes]
         res = pmap(sched_job, jobs, chunksize=1, seed=seed)
-        ne = 1 + sum(r["stats"]["executions"] for r in res)
+        ne = stats["executions"] + sum(r["stats"]["executions"] for r in res)
         nexec += ne
-        npts += len(root.points) + sum(r["stats"]["points"] for r in res)
+        npts += stats["points"] + sum(r["stats"]["points"] for r in res)
         out, wit = {}, {}
-        orders = {tuple(root.completion)}
-        rv = sched_check(root)
-        if rv:
-            out["+".join(sorted(set(rv)))] = 1
-            wit["+".join(sorted(set(rv)))] = []
+        for ch, v in found:
+            k = "+".join(sorted(set(v)))
+            out[k] = out.get(k, 0) + 1
+            if k not in wit or len(ch) < len(wit[k]):
+                wit[k] = ch
         for r in res:
             orders.update(tuple(o) for o in r["orders"])
             for k, c in r["out"].items():
                 out[k] = out.get(k, 0) + c
                 if k not in wit or len(r["wit"][k]) < len(wit[k]):
                     wit[k] = r["wit"][k]
-        summary[f"{driver}/{flavour}/bound{bound}"] = {"executions": ne, "violating": out, "root_points": len(root.points),
-                                                      "first_level_stride": stride, "distinct_completion_orders": len(orders)}
+        summary[f"{driver}/{flavour}/bound{bound}"] = {"executions": ne, "violating": out,
+                                                      "distinct_completion_orders": len(orders)}
         for k, c in out.items():
             vio.append(Violation(f"schedule|{driver}|{flavour}|{k}", f"{c} of {ne} schedules (<= {bound} preemptions): {k}; witness {wit[k][:40]}",
                                  {"part": "schedule", "driver": driver, "flavour": flavour, "choices": wit[k]}))
@@ -651,16 +650,15 @@ def run(tier, seed):
         "traces_validated_against_impl": nexec + len(cases) + len(modes),
         "exactness_cases": len(cases), "exactness_nontrivial": nontriv,
         "execution_modes": msum,
-        "schedules": ssum, "schedule_plan(driver,flavour,preemption_bound,first_level_stride)": [list(p) for p in plan],
-        "exhaustive": not (tier == "quick"),
+        "schedules": ssum, "schedule_plan(driver,flavour,preemption_bound)": [list(p) for p in plan],
+        "exhaustive": True,
         "rule": "exactness: full product of chain family x site dimensions x dissipators x process tensors per site x Trotter "
                 "order, every step and every recorded subset compared with single-site runs (uncoupled) or a dense simulation of "
                 "the full Liouvillian incl. ancillas (2-site generic, commuting zz chains); schedules: states = scheduling points "
                 "(source lines of pt_tebd_backend.py at which a gate task or the caller parked), transitions = complete "
                 "executions with the virtual executor of (a) two applications of a parallel gate layer on a 4-site (2 gates) or 6-site (3 "
                 "gates) chain through PtTebdBackend.apply_nn_gate_layer and (b) one full PtTebd step of a 4-site chain; all schedules "
-                "with <= B preemptions per the plan (a first-level stride > 1 means the exploration was sub-sampled and is NOT exhaustive "
-                "for that driver)",
+                "with <= B preemptions per the plan (bound 0 = all completion orders, every task running to completion once started)",
         "samples": [{"exact_case": [cases[(5 * seed) % len(cases)][0], list(cases[(5 * seed) % len(cases)][1])]},
                     {"schedule": {"flavour": "thread", "choices": [0, 0, 1]}}],
     }
